@@ -36,6 +36,12 @@ const ADDR_START: u64 = 0x104;
 const ADDR_STOP: u64 = 0x108;
 const ADDR_GAIN: u64 = 0x10c;
 const ADDR_GATE: u64 = 0x110;
+/// register the fake stream handle reads through the control object it is given
+const ADDR_PROBE: u64 = 0x200;
+const PROBE_MAGIC: u32 = 0x5342_524d;
+/// largest channel the fake loop fills completely
+const FILL_LIMIT: usize = (1 << 20) + 8;
+const BIG_CAP: usize = 1 << 20;
 
 #[derive(Clone, Copy, PartialEq, Eq, Debug)]
 enum Sub {
@@ -106,6 +112,8 @@ struct World {
     acquiring: bool,
     gain: u32,
     gate: u32,
+    /// reads the stream handle made through the control object passed to start_streaming_loop
+    probe_reads: usize,
     /// number of live receive loops (a permissive stream handle: it would start a second one)
     loops: u32,
     /// what `is_loop_running` answers
@@ -230,6 +238,17 @@ impl DeviceControl for FakeCtrl {
     }
     fn read(&mut self, address: u64, buf: &mut [u8]) -> ControlResult<()> {
         let mut w = self.0.borrow_mut();
+        if address == ADDR_PROBE && buf.len() == 4 {
+            // the stream handle setting up its parameters through the control object it was
+            // given (u3v::StreamHandle reads ABRM/SBRM/SIRM here); part of the loop-start
+            // sub-operation, not a sub-operation of its own
+            w.probe_reads += 1;
+            if !w.ctrl_open {
+                return Err(ControlError::NotOpened);
+            }
+            buf.copy_from_slice(&PROBE_MAGIC.to_le_bytes());
+            return Ok(());
+        }
         let (sub, v) = match (address, buf.len()) {
             (ADDR_GAIN, 4) => (Sub::ParamRead, w.gain),
             (ADDR_GATE, 4) => (Sub::GateRead, w.gate),
@@ -307,8 +326,17 @@ impl PayloadStream for FakeStrm {
             Err(strm_fault(w.fault_kind, false))
         }
     }
-    fn start_streaming_loop(&mut self, sender: PayloadSender, _ctrl: &mut dyn DeviceControl) -> StreamResult<()> {
+    fn start_streaming_loop(&mut self, sender: PayloadSender, ctrl: &mut dyn DeviceControl) -> StreamResult<()> {
+        // like the real handle: read the streaming parameters through the control object handed
+        // in; it must be the camera's (opened) control handle of THIS device
+        let before = self.0.borrow().probe_reads;
+        let mut buf = [0u8; 4];
+        let probe = ctrl.read(ADDR_PROBE, &mut buf);
         let mut w = self.0.borrow_mut();
+        if probe.is_err() || buf != PROBE_MAGIC.to_le_bytes() || w.probe_reads != before + 1 {
+            w.trace.push((Sub::Other, Out::Fault));
+            return Err(StreamError::Io(io_fault().into()));
+        }
         let o = w.step(Sub::LoopStart, false);
         if o == Out::Ok {
             // permissive on purpose: a second call WOULD create a second loop
@@ -316,12 +344,21 @@ impl PayloadStream for FakeStrm {
             w.flag = true;
             // the loop's side of the payload channel: push tokens until the channel is full
             w.fwd_tokens.clear();
-            for _ in 0..64 {
-                let id = w.next_token;
-                if sender.try_send(Ok(token(id))).is_err() {
+            let mut last: Option<Payload> = None;
+            for i in 0..FILL_LIMIT {
+                // distinct tokens for the first 64 slots, copies of the last one beyond
+                let (id, p) = if i < 64 || last.is_none() {
+                    let id = w.next_token;
+                    w.next_token += 1;
+                    (id, token(id))
+                } else {
+                    let p = last.clone().unwrap();
+                    (p.id(), p)
+                };
+                last = Some(p.clone());
+                if sender.try_send(Ok(p)).is_err() {
                     break;
                 }
-                w.next_token += 1;
                 w.fwd_tokens.push(id);
             }
             w.senders.push(sender);
@@ -694,7 +731,7 @@ fn observe_channel(receiver: &PayloadReceiver, w: &Rc<RefCell<World>>) {
     let mut got = vec![];
     while let Ok(p) = receiver.try_recv() {
         got.push(p.id());
-        if got.len() > 100 {
+        if got.len() > FILL_LIMIT {
             break;
         }
     }
@@ -727,6 +764,22 @@ struct CallOut {
     after: Snap,
 }
 
+/// Order of the two independent handle operations in `Camera::open` / `Camera::close`, read off
+/// the implementation's own trace once per run ("cc" = control handle first in both).  The
+/// property does not order them; the model takes the order as a parameter.
+static ORDER: std::sync::OnceLock<String> = std::sync::OnceLock::new();
+
+fn discover_order(xml_text: &str) -> String {
+    let case = Case { xml: XmlVar::FULL, stop_fail_kills: false, faults: vec![], ops: vec![Op::Open, Op::Close], kind: 0 };
+    let outs = run_impl(&case, xml_text);
+    let first = |seg: &[(Sub, Out)], c: Sub, s: Sub| match seg.first() {
+        Some(e) if e.0 == s && seg.len() == 2 && seg[1].0 == c => 's',
+        Some(e) if e.0 == c && seg.len() == 2 && seg[1].0 == s => 'c',
+        _ => 'c', // anything else: keep the default, the differential will show the difference
+    };
+    format!("{}{}", first(&outs[0].seg, Sub::CtrlOpen, Sub::StrmOpen), first(&outs[1].seg, Sub::CtrlClose, Sub::StrmClose))
+}
+
 #[derive(Clone, Debug)]
 struct Case {
     xml: XmlVar,
@@ -745,7 +798,8 @@ impl Case {
             self.faults.iter().map(|k| k.to_string()).collect::<Vec<_>>().join(",")
         };
         let ops = self.ops.iter().map(|o| o.name()).collect::<Vec<_>>().join(" ");
-        format!("c16 run {} {} {} {} {}", self.xml.bits(), if self.stop_fail_kills { "kill" } else { "keep" }, self.kind, f, ops)
+        let order = ORDER.get().map(|s| s.as_str()).unwrap_or("cc");
+        format!("c16 run {} {} {} {} {} {}", self.xml.bits(), if self.stop_fail_kills { "kill" } else { "keep" }, self.kind, order, f, ops)
     }
     fn replay(&self) -> Value {
         json!({"xml": self.xml.name(), "stop_fail_kills": self.stop_fail_kills, "faults": self.faults, "kind": self.kind,
@@ -1173,9 +1227,13 @@ fn main() {
     let args = parse_args();
     let rep = Report::new(
         "C16",
-        "exhaustive: every call sequence over {open, load, start(1), stop, close, param} up to the depth bound x (no fault + a fault at every sub-operation index), for the complete description; shallower exhaustive sweeps with start(0)/start(3), fault pairs, defective descriptions (node missing / wrong interface / unparsable), the loop-dies-on-failed-stop stream behaviour, contexts installed/removed behind the camera's back (Camera::new(Some)/set_context/public field), five further error variants; plus seeded random deep sequences. Every successful start pushes real payload tokens both ways through the channel. A case is non-trivial when at least one start_streaming call succeeds; distinct by the full request line",
+        "exhaustive: every call sequence over {open, load, start(1), stop, close, param} up to the depth bound x (no fault + a fault at every sub-operation index), for the complete description; shallower exhaustive sweeps with start(0)/start(3), fault pairs, defective descriptions (node missing / wrong interface / unparsable), the loop-dies-on-failed-stop stream behaviour, contexts installed/removed behind the camera's back (Camera::new(Some)/set_context/public field), five further error variants; plus seeded random deep sequences. Every successful start pushes real payload tokens both ways through the channel (caps 1, 3, 2..4 random, 2^16 and 2^20) and reads through the control object it was given. NOTE on effective coverage: the sweeps are exhaustive over call sequences, so most cases consist largely of refused calls (load -> NotOpened before open, start -> GenApiContextMissing before load); only ~4 % of the cases contain a successful start (that is the 'non-trivial' count), the others exercise the refusal/abort clauses. A case is non-trivial when at least one start_streaming call succeeds; distinct by the full request line",
     );
     let mut cx = Ctx { rep, xmls: Default::default(), camdrv: args.camdrv.clone() };
+    let full_text = cx.xml_text(XmlVar::FULL);
+    let order = discover_order(&full_text);
+    ORDER.set(order.clone()).ok();
+    cx.rep.extra.insert("handle_order_discovered".into(), json!({"open_first": &order[0..1], "close_first": &order[1..2], "legend": "c = control handle, s = stream handle"}));
 
     if let Some(path) = &args.replay {
         let v: Value = serde_json::from_str(&std::fs::read_to_string(path).unwrap()).unwrap();
@@ -1329,6 +1387,21 @@ fn main() {
             ops.extend_from_slice(s);
             let c = Case { xml: XmlVar { gate: g, ..XmlVar::FULL }, stop_fail_kills: false, faults: vec![], ops, kind: 0 };
             cx.with_faults(&c, false, "exhaustive-gated-TLParamsLocked");
+        }
+    }
+
+    // (5d) large capacities: the channel must really have `cap` slots (a clamp would show), and
+    //      the give-back capacity stays 5
+    for ops in [
+        vec![Op::Open, Op::Load, Op::Start(BIG_CAP), Op::Close],
+        vec![Op::Open, Op::Load, Op::Start(1 << 16), Op::Stop, Op::Start(1 << 16), Op::Close],
+        vec![Op::Open, Op::Load, Op::Start(1 << 16), Op::Start(BIG_CAP), Op::Stop],
+        vec![Op::Open, Op::Load, Op::Start(1025), Op::Close],
+    ] {
+        let c = Case { xml: XmlVar::FULL, stop_fail_kills: false, faults: vec![], ops: ops.clone(), kind: 0 };
+        cx.one(&c, "large-cap");
+        if !ops.contains(&Op::Start(BIG_CAP)) {
+            cx.with_faults(&c, false, "large-cap");
         }
     }
 
